@@ -10,7 +10,10 @@ import LispModel.LispErrorDriver
 import LispModel.PositionDriver
 import LispModel.PkgRegDriver
 import LispModel.MetaDriver
+import LispModel.IntArithDriver
 import LispModel.TyCtorDriver
+import LispModel.LNotDriver
+import LispModel.EnvAlgDriver
 open LispModel
 
 def splitBar (s : String) : List String := s.splitOn " | "
@@ -148,7 +151,10 @@ partial def matchPreamble (phs : List (String × Val)) (text : List Char) (src :
 def handle (line : String) : String :=
   match line.splitOn "\t" with
   | ["pkgreg", payload] => PkgReg.handlePkgReg payload
+  | ["arith", payload] => IntArith.handleIntArith payload  -- C01/C13/C06 support, see LispModel/IntArithDriver.lean
   | ["tyctor", payload] => TyCtor.handleTyCtor payload  -- C13/C04/C14 support, see LispModel/TyCtorDriver.lean
+  | ["lnot", payload] => LNot.handleLNot payload  -- C19/C06 support, see LispModel/LNotDriver.lean
+  | ["envalg", payload] => EnvAlg.handleEnvAlg payload  -- C01/C04/C11 support, see LispModel/EnvAlgDriver.lean
   | ["meta", payload] => Meta.handleMeta payload  -- C02/C06/C13/C14 support, see LispModel/MetaDriver.lean
   | ["eq", payload] =>
     match (splitBar payload).map Proto.parseLine with
